@@ -198,7 +198,14 @@ def run(E: Engine, rep: Report, tier: str) -> dict:
         ok = any(l.kind == "store" and l.target is not None and l.target[0] == "idx" and l.target[1] == mc["Q_d"] and is_(l.value, "self._qdict[q1] - self._qdict[q2]") is not None for l in Sx.log) or is_(unobj(mc["Q_d"]), "self._qdict[q1] - self._qdict[q2]") is not None
     rep.check(bool(ok), "PAIR", "make_xy_term|cosine-normalised-by-both-norms", "cos(theta) = r.B / (|r| |B|) with r the inter-atomic vector", f"the angle cosine is {sh(m['Q_cos'], 200) if m else '?'}: it must be the dot product of the inter-atomic vector and the magnetic field divided by both norms (and R must be that vector's norm)", E.where(xy))
     rep.check(m is not None and is_(m["Q_op"], "self.build_operator([('sigma_ud', [q1]), ('sigma_du', [q2])])") is not None, "PAIR", "make_xy_term|exchange-operator", "sigma_ud(q1) sigma_du(q2) (+ h.c. by symmetrisation)", "the XY exchange operator changed", E.where(xy))
-    rep.floor("SIB", 4)
+    # several channels on one transition: the drives add as complex amplitudes Omega e^{-i phi}.  The per-basis view the
+    # emulator reads accumulates amplitude and phase separately (`[...]["phase"][...] += ...`): while two channels drive
+    # the same atoms at the same time with different phases the Hamiltonian gets (A1 + A2) e^{-i (phi1 + phi2)}
+    tnd5 = E.method("pulser.sampler.samples.SequenceSamples", "to_nested_dict")
+    ph_acc = [l for l in S(E, tnd5).logged("aug") if l.fn == tnd5.short and l.op == "Add" and l.target is not None and l.target[0] == "idx" and l.target[1][0] == "idx" and l.target[1][2] in (("const", "phase"), ("name", "_PHASE"))]
+    rep.check(not ph_acc, "SIB", "to_nested_dict|simultaneous-drives-add-as-complex-amplitudes", "no `phase +=` accumulation across channels (drives combined as complex numbers)",
+              f"to_nested_dict accumulates the phases of the channels of one basis ({len(ph_acc)} `phase +=` statements): two pulses that overlap in time on one transition with phases phi1 != phi2 enter the Hamiltonian as (A1 + A2) e^(-i (phi1 + phi2)) instead of A1 e^(-i phi1) + A2 e^(-i phi2)", E.where(tnd5, ph_acc[0].node if ph_acc else None))
+    rep.floor("SIB", 5)
     rep.floor("PAIR", 6)
 
     # -------------------------------------------------------------- GUARD
